@@ -163,7 +163,17 @@ impl Shared {
         })
     }
     pub fn add_model_run(&self, name: &str, states: u64, generated: u64, max_depth: u64, done: bool, wall_s: f64) {
-        self.agg.lock().unwrap().model_runs.push(ModelRun { name: name.to_string(), states, generated, max_depth, done, wall_s });
+        // runs of the same model family (same name) are reported as one entry
+        let mut g = self.agg.lock().unwrap();
+        if let Some(m) = g.model_runs.iter_mut().find(|m| m.name == name) {
+            m.states += states;
+            m.generated += generated;
+            m.max_depth = m.max_depth.max(max_depth);
+            m.done &= done;
+            m.wall_s += wall_s;
+        } else {
+            g.model_runs.push(ModelRun { name: name.to_string(), states, generated, max_depth, done, wall_s });
+        }
     }
     pub fn note(&self, s: impl Into<String>) {
         self.agg.lock().unwrap().notes.push(s.into());
